@@ -394,6 +394,25 @@ class LockProxy:
             if tid is not None:
                 self.sched._log(tid, 'acq')
             return True
+        if timeout is not None and timeout > 0:
+            # an acquire with a timeout: how long the holder keeps the lock is the scheduler's choice - after three schedule
+            # entries that found the lock held the timeout is taken to have expired
+            sched = self.sched
+            tid = sched.me()
+            if tid is None:
+                self.owner = 'main'
+                return True
+            tries = 0
+            while True:
+                sched.step('tryacq')
+                if self.owner is None:
+                    self.owner = tid
+                    sched._log(tid, 'acq')
+                    return True
+                tries += 1
+                if tries >= 3:
+                    sched._log(tid, 'acquire-timed-out')
+                    return False
         self.sched.lock_acquire(self)
         return True
 
